@@ -104,24 +104,31 @@ Section C03.
   (* if / while / until without redirects of their own *)
   Definition mk_if (cond thn : tree) (els : option tree) : tree :=
     mk "if" (($"condition", cond) :: ($"then_body", thn) :: match els with Some e => [($"else_body", e)] | None => [] end).
-  Lemma if_join c cond thn els :
+  (* (a condition that changes the directory moves the branches: see C03_list_cd for how
+     directory changes enter the law) *)
+  Lemma if_join c cond thn els : changes_directory cond = false ->
     walk c (mk_if cond thn els) =
     combine (walk c cond :: walk c thn :: match els with Some e => [walk c e] | None => [] end).
   Proof.
-    unfold mk_if, mk. rewrite walk_if.
+    intro Hcd. unfold mk_if, mk. rewrite walk_if.
     destruct els; cbv [child children kids_of filter map fst snd redirs_of flat_map need optional];
-      repeat vm_compute (str_eqb _ _); cbn [app]; rewrite ?app_nil_r; reflexivity.
+      repeat vm_compute (str_eqb _ _); cbn [app]; rewrite ?app_nil_r; rewrite Hcd;
+      unfold body_ctx; rewrite andb_false_r; reflexivity.
   Qed.
 
   Definition mk_loop (k : string) (cond body : tree) : tree := mk k [($"condition", cond); ($"body", body)].
-  Lemma while_join c cond body : walk c (mk_loop "while" cond body) = combine [walk c cond; walk c body].
+  Lemma while_join c cond body : changes_directory (mk_loop "while" cond body) = false ->
+    walk c (mk_loop "while" cond body) = combine [walk c cond; walk c body].
   Proof.
-    unfold mk_loop, mk. rewrite walk_while.
+    intro Hcd. unfold mk_loop, mk in *. rewrite walk_while. cbv zeta. rewrite Hcd.
+    unfold body_ctx. rewrite andb_false_r.
     cbv [child children kids_of filter map fst snd redirs_of flat_map need]; repeat vm_compute (str_eqb _ _). reflexivity.
   Qed.
-  Lemma until_join c cond body : walk c (mk_loop "until" cond body) = combine [walk c cond; walk c body].
+  Lemma until_join c cond body : changes_directory (mk_loop "until" cond body) = false ->
+    walk c (mk_loop "until" cond body) = combine [walk c cond; walk c body].
   Proof.
-    unfold mk_loop, mk. rewrite walk_until.
+    intro Hcd. unfold mk_loop, mk in *. rewrite walk_until. cbv zeta. rewrite Hcd.
+    unfold body_ctx. rewrite andb_false_r.
     cbv [child children kids_of filter map fst snd redirs_of flat_map need]; repeat vm_compute (str_eqb _ _). reflexivity.
   Qed.
 
